@@ -336,6 +336,13 @@ func firstPacketAF(r *rand.Rand, hdrLen int, big bool) *astits.PacketAdaptationF
 		a.TransportPrivateDataLength = len(a.TransportPrivateData)
 		return a
 	}
+	if r.IntN(12) == 0 {
+		// a splice countdown wider than its 8 bits (what a parse that read the byte as unsigned left behind)
+		if v := []int{128, 200, 255, -129, 300}[r.IntN(5)]; a.HasSplicingCountdown || (!big && gen.AFBodySize(a)+1 <= body) {
+			a.HasSplicingCountdown = true
+			a.SpliceCountdown = v
+		}
+	}
 	// requested stuffing: the adaptation field of a packet that was parsed and is handed back to WriteData still says how much
 	// stuffing it carried (a remultiplexer). However much of it the library honours, what comes out are whole conformant packets
 	// and the unit survives the round trip
